@@ -53,6 +53,7 @@ FormatFails(d, f) ==
         (IF Has(f, "strings_out") /\ ~Has(d, "range") /\ ~HasDirectives(d)
          THEN {V("C11", w) : w \in Opt!QuoteFails(f.strings_out, f.cfg, FALSE)}
          ELSE {}) \cup
+        (IF ~Deterministic(f) THEN {V("XL", "nondeterministic")} ELSE {}) \cup
         (IF Has(f, "lines")
          THEN {V("C10", w) : w \in Lay!WhitespaceFails(f.lines, f.cfg, ~Has(d, "range"))} \cup
               (IF ~Has(d, "range") /\ ~HasDirectives(d) THEN {V("XL", w) : w \in Lay!ExtraFails(f.lines)} ELSE {})
